@@ -443,7 +443,7 @@ pub fn c16(ctx: &Ctx) -> Report {
 
 // ------------------------------------------------------------------------------------------- C20
 pub fn c20(ctx: &Ctx) -> Report {
-    let mut rep = Report::new("C20", "all 12 StatusCode variants x messages {empty, ASCII, non-ASCII, 4 KiB} formatted through Display / to_string / dyn Error in a child process with a 256 KiB main-thread stack (so unbounded recursion aborts instead of eating memory), compared with the model's Status.new/display; all io::ErrorKind values the conversion distinguishes plus 16 others mapped through From<io::Error>; From<snap::Error>, From<PoisonError>; judge: the text contains the code name and the message; non-trivial = every case; distinct by (code, message)");
+    let mut rep = Report::new("C20", "all 12 StatusCode variants x messages {empty, ASCII, non-ASCII, 4 KiB, NUL / control characters, a code name inside the message, lossy-UTF-8 replacement characters, 256 bytes, 70000 bytes} formatted through Display / to_string / dyn Error in a child process with a 256 KiB main-thread stack (so unbounded recursion aborts instead of eating memory), compared with the model's Status.new/display; all io::ErrorKind values the conversion distinguishes plus 16 others mapped through From<io::Error>; From<snap::Error>, From<PoisonError>; judge: the text contains the code name and the message; non-trivial = every case; distinct by (code, message)");
     let mut d = ctx.new_driver();
     // the child prints hex(display) per case
     let exe = std::env::current_exe().unwrap();
@@ -512,7 +512,19 @@ pub fn c20(ctx: &Ctx) -> Report {
 
 pub fn c20_child() {
     use std::error::Error;
-    let msgs: Vec<String> = vec!["".into(), "plain ascii message".into(), "nicht-ASCII: äöü € 字".into(), "x".repeat(4096)];
+    let msgs: Vec<String> = vec![
+        "".into(),
+        "plain ascii message".into(),
+        "nicht-ASCII: äöü € 字".into(),
+        "x".repeat(4096),
+        // unusual messages: a NUL byte, control characters, a code name inside the message, a replacement
+        // character from lossy UTF-8, lengths beyond one and two bytes
+        "nul\0inside\ttab\nnewline".into(),
+        "Corruption: NotFound IOError".into(),
+        String::from_utf8_lossy(&[0x66, 0xff, 0xfe, 0x6f]).to_string(),
+        "y".repeat(256),
+        "z".repeat(70000),
+    ];
     for c in all_codes() {
         for m in msgs.iter() {
             let s = Status::new(c.clone(), m);
